@@ -1,0 +1,38 @@
+//go:build verif
+
+package referrer
+
+// Contracts checked by /verif (govc). Comment-only file; not part of normal builds.
+
+// C10 set semantics of the client-managed referrers index. The index value handed to
+// Manifest.SetOrig (what will be pushed) is constrained at the call site:
+//   Delete: no entry with the deleted manifest's digest remains
+//   Add:    the new digest is present, and it was not present before (so it is there exactly
+//           once when the stored list had no duplicates); Add of a present digest returns early
+//           without touching the list (idempotent)
+//@ callsite (~/types/manifest.Manifest).SetOrig(orig)
+//@   prop C10
+//@   name SetOrig/Delete
+//@   in ~/types/referrer
+//@   infunc \)\.Delete$
+//@   requires none-left: forall(k, 0, len($unbox(orig, v1.Index).Manifests), $unbox(orig, v1.Index).Manifests[k].Digest != caller.mDesc.Digest)
+//@   requires list-published: caller.rl.Descriptors == $unbox(orig, v1.Index).Manifests
+//@ func (*ReferrerList).Delete(m) (err)
+//@   prop C10
+//@   loop 0 (i)
+//@     invariant range: -1 <= i && i < len(rlM.Manifests)
+//@     invariant suffix-clean: forall(k, i + 1, len(rlM.Manifests), rlM.Manifests[k].Digest != mDesc.Digest)
+
+//@ callsite (~/types/manifest.Manifest).SetOrig(orig)
+//@   prop C10
+//@   name SetOrig/Add
+//@   in ~/types/referrer
+//@   infunc \)\.Add$
+//@   requires new-is-last: len($unbox(orig, v1.Index).Manifests) >= 1 && $unbox(orig, v1.Index).Manifests[len($unbox(orig, v1.Index).Manifests) - 1].Digest == caller.mDesc.Digest
+//@   requires not-present-before: forall(k, 0, len($unbox(orig, v1.Index).Manifests) - 1, $unbox(orig, v1.Index).Manifests[k].Digest != caller.mDesc.Digest)
+//@   requires list-published: caller.rl.Descriptors == $unbox(orig, v1.Index).Manifests
+//@ func (*ReferrerList).Add(m) (err)
+//@   prop C10
+//@   loop 0 (d)
+//@     invariant range: -1 <= $idx && $idx < len(rlM.Manifests)
+//@     invariant prefix-clean: forall(k, 0, $idx + 1, rlM.Manifests[k].Digest != mDesc.Digest)
